@@ -313,7 +313,13 @@ theorem preSave_spec (s s1 : State) (e : Event) (h : preSave s e = some s1) (r :
 theorem C09_sql_removed_spec (s s' : State) (e : Event) (ch : Bool) (h5 : e.kind ≠ 5)
     (h : addEvent s e = .ok s' ch) (r : Event) (hr : r ∈ s.events) (hgone : r ∉ s'.events) :
     isAddressKind e.kind = true ∧ Supersedes e r := by
-  unfold addEvent at h
+  cases hres : isResubmission s e with
+  | true =>
+    rw [addEvent_resubmission s e hres] at h
+    simp only [AddResult.ok.injEq] at h
+    obtain ⟨rfl, _⟩ := h; exact absurd hr hgone
+  | false =>
+  rw [addEvent_fresh s e hres] at h
   cases hp : preSave s e with
   | none => simp [hp] at h
   | some s1 =>
@@ -379,7 +385,12 @@ theorem C09_sql_older_gone (s s' : State) (e : Event) (h5 : e.kind ≠ 5)
     (h : addEvent s e = .ok s' true) (r : Event) (hr : r ∈ s'.events) (hne : r ≠ e) :
     ¬ Supersedes e r := by
   intro hsup
-  unfold addEvent at h
+  cases hres : isResubmission s e with
+  | true =>
+    rw [addEvent_resubmission s e hres] at h
+    simp at h
+  | false =>
+  rw [addEvent_fresh s e hres] at h
   cases hp : preSave s e with
   | none => simp [hp] at h
   | some s1 =>
